@@ -5,6 +5,7 @@ import SevenZ.Model.Assign
 import SevenZ.Spec.Format
 import SevenZ.Lemmas.Assign
 import SevenZ.Lemmas.Refine
+import SevenZ.Lemmas.RefineFiles
 namespace SevenZ.C06
 open SevenZ
 
@@ -188,6 +189,91 @@ theorem reader_refines_spec_attrs (w : String) (files : List FileEntry) (vals : 
 theorem reader_refines_spec_bitfield (n : Nat) (w : String) (s : Bytes) (hs : Inp s) (bits : List Bool) (r : Bytes)
     (h : Spec.sBitField n w s = .ok (bits, r)) : Impl.readBits n s = some (bits, r) :=
   (sBitField_refines hs.1 h).1
+
+/-- **The next-header buffer as a whole, when it is an EncodedHeader record.** Every byte string the strict reader
+    accepts as an EncodedHeader record (id 0x17, a StreamsInfo, nothing behind it) is recognised as one by the model
+    of `Header._read`, with the same position and size of the packed header and the same folder — whoever wrote
+    it: this is the step that decides WHERE py7zr looks for the packed header and WITH WHICH CODERS it decodes it. -/
+theorem reader_refines_spec_encoded_record (buf : Bytes) (hb : Inp buf) (ss : Spec.SStreams)
+    (hone : ∀ f ∈ ss.folders, OneOut f) (h : Spec.readTop buf = .ok (.encoded ss)) :
+    ∃ st, Impl.readNextHeader buf = .ok (.encoded st) ∧
+      (∀ sp, ss.pack = some sp → ∃ ip, st.packinfo = some ip ∧ ip.packpos = sp.packpos ∧ ip.packsizes = sp.sizes) ∧
+      st.folders.getD [] = ss.folders.map folderOf := by
+  unfold Spec.readTop at h
+  split at h
+  · simp at h
+  · rename_i rest
+    cases hh : Spec.sHeaderBody rest with
+    | error e => simp [hh, Except.map] at h
+    | ok v => simp [hh, Except.map] at h
+  · rename_i rest
+    cases hs : Spec.sStreams rest with
+    | error e => simp [hs] at h
+    | ok v =>
+      obtain ⟨s', r⟩ := v
+      cases r with
+      | cons x xs => simp [hs] at h
+      | nil =>
+        simp only [hs, Except.ok.injEq, Spec.Top.encoded.injEq] at h
+        subst h
+        have hi : Inp rest := hb.tail
+        obtain ⟨st, g, a, _, c, _, _, _⟩ := sStreams_refines (total := (0x17 :: rest).length) hi (by simp) hone hs
+        refine ⟨st, ?_, a, c⟩
+        simp only [Impl.readNextHeader, g, Except.map]
+  · simp at h
+
+/-- **The Names property, for every input**: where the strict reader splits the body of the Names property into one
+    name per member (UTF-16-LE, zero-terminated, the body used up exactly), py7zr's per-member loop
+    (`read_utf16` + the backslash rewrite) reads the same names from the same bytes and leaves nothing over — for
+    names of fewer than 32768 characters (`read_utf16` stops after 65535 units). -/
+theorem reader_refines_spec_names (files : List FileEntry) (names : List (List Nat)) (fuel : Nat) (body : Bytes)
+    (hb : IsBytes body) (hl : files.length = names.length) (hlen : ∀ cs ∈ names, 2 * cs.length < maxLength)
+    (h : Spec.splitNames fuel body [] = .ok names) :
+    Impl.setNames files body = .ok ((files.zip names).map (fun (f, cs) => { f with filename := some (Impl.fixSlash cs) }), []) :=
+  setNames_refines files names fuel body hb hl hlen h
+
+/-- **py7zr never misreads a header the format defines.** For every next-header buffer (fewer than 131072 bytes, so
+    that no name exceeds `read_utf16`'s limit; folders with one result stream) that the strict reader accepts as a
+    raw Header — any StreamsInfo, any FilesInfo with its properties in any order: EmptyStream, EmptyFile, Names,
+    CTime / ATime / MTime, Attributes, Dummy padding, also Anti and StartPos — the model of `Header._read` either
+    returns a header object that agrees with the strict reader's (`HeaderRel`: pack position and sizes, folders,
+    stream counts, sub-stream sizes, and member by member the empty-stream flag, the name with backslashes rewritten,
+    the three times and the attribute word, defined or not) or raises (py7zr supports neither Anti nor StartPos). It
+    never succeeds with other values. With `assign_refines_spec` and the codec assumptions this is the whole of
+    C06's "read as the format defines it" at header level, for every input rather than for the layouts explored. -/
+theorem reader_never_misreads_header (buf : Bytes) (hb : Inp buf) (hshort : buf.length < 2 * maxLength)
+    (sh : Spec.SHeader) (hone : ∀ ss, sh.streams = some ss → ∀ f ∈ ss.folders, OneOut f)
+    (h : Spec.readTop buf = .ok (.raw sh)) :
+    (∃ H, Impl.readNextHeader buf = .ok (.raw H) ∧ HeaderRel sh H) ∨ (∃ e, Impl.readNextHeader buf = .error e) := by
+  unfold Spec.readTop at h
+  split at h
+  · simp at h
+  · rename_i rest
+    cases hh : Spec.sHeaderBody rest with
+    | error e => simp [hh, Except.map] at h
+    | ok v =>
+      obtain ⟨sh', r⟩ := v
+      simp only [hh, Except.map, Except.ok.injEq, Spec.Top.raw.injEq] at h
+      subst h
+      have hi : Inp rest := hb.tail
+      rcases sHeaderBody_safe (total := (0x01 :: rest).length) hi (by simp) (by simp at hshort ⊢; omega) hone hh with ⟨H, g, hr⟩ | ⟨e, g⟩
+      · exact Or.inl ⟨H, by simp only [Impl.readNextHeader, g, Except.map], hr⟩
+      · exact Or.inr ⟨e, by simp only [Impl.readNextHeader, g, Except.map]⟩
+  · rename_i rest
+    cases hs : Spec.sStreams rest with
+    | error e => simp [hs] at h
+    | ok v =>
+      obtain ⟨s', r⟩ := v
+      cases r <;> simp [hs] at h
+  · simp at h
+
+-- non-vacuity: a raw header with one stream-less member named "a" (Names, then EmptyStream) is accepted by the strict
+-- reader and read by py7zr's model
+example : (match Spec.readTop [0x01, 0x05, 0x01, 0x11, 0x05, 0x00, 0x61, 0x00, 0x00, 0x00, 0x0E, 0x01, 0x80, 0x00, 0x00] with
+      | .ok (.raw sh) => sh.files.map (fun f => (f.name, f.emptyStream)) | _ => []) = [(some [0x61], true)] ∧
+    (match Impl.readNextHeader [0x01, 0x05, 0x01, 0x11, 0x05, 0x00, 0x61, 0x00, 0x00, 0x00, 0x0E, 0x01, 0x80, 0x00, 0x00] with
+      | .ok (.raw H) => (H.filesInfo.map (fun fi => fi.files.map (fun f => (f.filename, f.emptystream)))) | _ => none) =
+      some [(some [0x61], true)] := by decide +kernel
 
 /-- every folder whose coders are chained linearly without bind pairs to spare — one coder, no bind pair — has one
     result (the shape of every folder of a one-coder chain) -/
